@@ -340,6 +340,26 @@ def check_max_style(project: Project, rep, qual, I=None):
     if not segs:
         rep.unmodelled("PL-MAX", fi, fi.node, "no segment-drawing call reached")
         return
+    # two call sites, one of them reached only for the row at the argmax of the cost column, drawn with other style arguments
+    def _argmax_cols(e):
+        am = [y for y in sym.walk(e) if y[0] == "opq" and y[1] == "argmax"]
+        am_red = [y for y in sym.walk(e) if y[0] == "red" and y[1] == "argmax"]
+        cols = {z[2][1] for y in am for d in y[2] if isinstance(d, tuple) for z in sym.walk(d) if z[0] == "in" and z[1] == "Mt"}
+        cols |= {z[2][1] for y in am_red for z in sym.walk(y[4]) if z[0] == "in" and z[1] == "Mt"}
+        return cols if (am or am_red) else None
+    if len(segs) >= 2:
+        sty = lambda ev: tuple(repr(v) for v in list(ev["pos"][2:]) + sorted((ev.get("kwargs") or {}).items(), key=lambda kv: kv[0]))
+        by_reach = [(ev, _argmax_cols(ev["reach"]) if ev.get("reach") is not None else None) for ev in segs]
+        special = [ev for ev, c_ in by_reach if c_ == {2}]
+        wrong = [c_ for ev, c_ in by_reach if c_ is not None and c_ != {2}]
+        if special and any(sty(ev) != sty(special[0]) for ev in segs if ev is not special[0]):
+            rep.discharged("PL-MAX", fi, special[0]["node"], "the row at argmax of the cost column is drawn by a call of its own, with "
+                                                             "other style arguments than the calls for all other rows")
+            return
+        if wrong:
+            rep.refuted("PL-MAX", fi, segs[0]["node"], f"the distinguished row is the argmax of column {sorted(wrong[0])}, not of the "
+                                                       f"cost column 2")
+            return
     for ev in segs:
         styles = list(ev["pos"][2:]) + list((ev.get("kwargs") or {}).values())
         marked, wrong_col, unknown = [], None, False
@@ -573,6 +593,43 @@ def check_plot_diagrams(project: Project, rep0):
         else:
             rep.refuted("PL-LIM", fi, fi.node, f"{tag}: no horizontal ∞-line is drawn when infinite deaths are present",
                         construct=f"{qual}: inf line missing ({tag})")
+
+
+def check_plot_diagrams_selection(project: Project, rep0):
+    """PL-DGM with `plot_only` and `labels`: of three labelled diagrams the first and the third are asked for — exactly those two
+    are drawn, each with its own points and its own label."""
+    from ..core.report import ExactOnly
+    qual = "persim.visuals.plot_diagrams"
+    fi = project.function(qual)
+    if "plot_only" not in fi.params or "labels" not in fi.params:
+        return
+    I = Interp(project, Config(nonempty={("rows", "S"), ("rows", "T"), ("rows", "U")}, finite_inputs={"S", "T", "U"}))
+    names, labs = ("S", "T", "U"), ("first", "second", "third")
+    try:
+        I.run(qual, {"diagrams": Seq([dgm_input(nm) for nm in names], "list"), "plot_only": Seq([Sc(sym.Num(0)), Sc(sym.Num(2))], "list"),
+                     "labels": Seq([StrV(x) for x in labs], "list"), "ax": ObjV(None, {}, tag="axes")})
+    except AnalysisError as ex:
+        rep0.unmodelled("PL-DGM", fi, fi.node, f"plot_only=[0, 2]: {ex}"[:160])
+        return
+    rep = ExactOnly(rep0, I)
+    sc = [ev for ev in I.log if ev["kind"] == "draw" and ev["method"] == "scatter"]
+    got = []
+    for ev in sc:
+        pos = ev["pos"]
+        src = sorted({x[1] for p_ in pos[:2] if isinstance(p_, Arr) for x in sym.walk(p_.elem) if x[0] == "in"})
+        lab = (ev.get("kwargs") or {}).get("label")
+        got.append((src, lab.s if isinstance(lab, StrV) else (repr(lab)[:40] if lab is not None else None)))
+    want = [(["S"], "first"), (["U"], "third")]
+    if got == want:
+        rep.discharged("PL-DGM", fi, sc[0]["node"], "plot_only=[0, 2] of three labelled diagrams: the first and the third are drawn, each "
+                                                    "under its own label")
+    elif len(sc) and all(isinstance(g[1], str) or g[1] is None for g in got) and not (I.unmodelled or I.lossy):
+        rep.refuted("PL-DGM", fi, sc[0]["node"],
+                    f"plot_only=[0, 2] of the diagrams labelled {list(labs)}: drawn are {[(g[0], g[1]) for g in got]} — not the selected "
+                    f"diagrams under their own labels",
+                    construct=f"{qual}: plot_only / labels")
+    else:
+        rep.unmodelled("PL-DGM", fi, fi.node, f"plot_only=[0, 2]: the scatter calls could not be followed ({got})"[:200])
 
 
 def check_plot_diagrams_given_range(project: Project, rep):
@@ -865,6 +922,7 @@ def run(project: Project, rep, tier: str):
         I_ = check_matching_plot(project, rep, q)
         if q.endswith("bottleneck_matching"):
             check_max_style(project, rep, q, I_)
+    check_plot_diagrams_selection(project, rep)
     check_plot_diagrams(project, rep)
     check_plot_diagrams_given_range(project, rep)
     check_landscape_plots(project, rep)
